@@ -28,8 +28,12 @@ MSD = 'merge_ska_dict::MergeSkaDict'
 
 
 def run(facts, chk, tier, only=None):
+    from . import cli_e2e
+    # the subcommand through ska::main() itself (argument parser replaced by a constructed Args value): hand-over of CLI values, width dispatch
+    chk.guard('C07.cli', 'C07.cli:run0', lambda: cli_e2e.check_merge_delete(facts, chk, 'C07.cli', tier, 'merge'))
     from . import e2e2
     chk.guard('C07.e2e', 'C07.e2e:run', lambda: e2e2.check_merge_e2e(facts, chk, 'C07.e2e', tier))
+    chk.guard('C07.e2e', 'C07.e2e:run-empty', lambda: e2e2.check_merge_empty(facts, chk, 'C07.e2e', tier))
     kf = facts.field_index(MSD, 'k')
     rf = facts.field_index(MSD, 'rc')
 
@@ -147,7 +151,7 @@ def run(facts, chk, tier, only=None):
             raise AnchorLost('generic_modes::merge: %d extend, %d save_skf' % (len(ex), len(sv)))
         after = reachable_without(g, sv[0][1].target) if sv[0][1].target is not None else set()
         return not any(e in after for e in ex) and not g.in_cycle(sv[0][0]), sv[0][1].span
-    r = chk.guard('C07.guard', 'C07.guard:merge:order', order)
+    r = chk.guard_soft('C07.guard', 'C07.guard:merge:order', order, twins=['C07.e2e:merge'])
     if r is not None:
         ok, sp = r
         if ok:
